@@ -377,14 +377,14 @@ func (in *Interp) convert(v Value, from, to types.Type) Value {
 			if et.Kind() == types.Int32 {
 				var sb strings.Builder
 				for i := 0; i < x.Len; i++ {
-					sb.WriteRune(rune(in.Concretize(in.load(x.Arr.Elems[x.Off+i]).(*sym.Term))))
+					sb.WriteRune(rune(in.Concretize(in.sget(x, i).(*sym.Term))))
 				}
 				return sb.String()
 			}
 			bs := make([]*sym.Term, x.Len)
 			allc := true
 			for i := 0; i < x.Len; i++ {
-				bs[i] = in.load(x.Arr.Elems[x.Off+i]).(*sym.Term)
+				bs[i] = in.sget(x, i).(*sym.Term)
 				if !bs[i].IsConst() {
 					allc = false
 				}
@@ -405,19 +405,19 @@ func (in *Interp) convert(v Value, from, to types.Type) Value {
 			eb := sl.Elem().Underlying().(*types.Basic)
 			if eb.Kind() == types.Int32 {
 				rs := []rune(x)
-				s := in.makeSlice(sl.Elem(), len(rs), len(rs))
+				vals := make([]Value, len(rs))
 				for i, r := range rs {
-					s.Arr.Elems[i].V = f.Int(int64(r))
+					vals[i] = f.Int(int64(r))
 				}
-				return s
+				return in.sliceFrom(sl.Elem(), vals)
 			}
 			return in.bytesToSlice([]byte(x), sl.Elem())
 		case *SymStr:
-			s := in.makeSlice(sl.Elem(), len(x.B), len(x.B))
+			vals := make([]Value, len(x.B))
 			for i, b := range x.B {
-				s.Arr.Elems[i].V = b
+				vals[i] = b
 			}
-			return s
+			return in.sliceFrom(sl.Elem(), vals)
 		case SliceVal:
 			return x
 		}
@@ -432,18 +432,18 @@ func (in *Interp) convert(v Value, from, to types.Type) Value {
 }
 
 func (in *Interp) bytesToSlice(b []byte, et types.Type) SliceVal {
-	s := in.makeSlice(et, len(b), len(b))
+	vals := make([]Value, len(b))
 	for i, c := range b {
-		s.Arr.Elems[i].V = in.F.Int(int64(c))
+		vals[i] = in.F.Int(int64(c))
 	}
-	return s
+	return in.sliceFrom(et, vals)
 }
 
 // sliceBytes extracts concrete bytes from a []byte value; ok=false if symbolic.
 func (in *Interp) sliceBytes(s SliceVal) ([]byte, bool) {
 	out := make([]byte, s.Len)
 	for i := 0; i < s.Len; i++ {
-		t, ok := in.load(s.Arr.Elems[s.Off+i]).(*sym.Term)
+		t, ok := in.sget(s, i).(*sym.Term)
 		if !ok || !t.IsConst() {
 			return nil, false
 		}
@@ -454,11 +454,15 @@ func (in *Interp) sliceBytes(s SliceVal) ([]byte, bool) {
 
 func (in *Interp) makeSlice(et types.Type, n, cp int) SliceVal {
 	at := types.NewArray(et, int64(cp))
-	arr := &Cell{T: at, Agg: true, Elems: make([]*Cell, cp)}
-	for i := range arr.Elems {
-		arr.Elems[i] = &Cell{T: et}
-	}
+	arr := &Cell{T: at, Agg: true}
 	return SliceVal{Arr: arr, Len: n, Cap: cp}
+}
+
+// sliceFrom builds a slice over a compact array holding vals.
+func (in *Interp) sliceFrom(et types.Type, vals []Value) SliceVal {
+	at := types.NewArray(et, int64(len(vals)))
+	arr := &Cell{T: at, Agg: true, V: &ArrayVal{E: vals}}
+	return SliceVal{Arr: arr, Len: len(vals), Cap: len(vals)}
 }
 
 func (in *Interp) index(x, idx Value, xt types.Type) Value {
@@ -491,11 +495,10 @@ func (in *Interp) indexAddr(x, idx Value) Value {
 		if a == nil {
 			panic(goPanic{msg: "runtime error: invalid memory address or nil pointer dereference"})
 		}
-		in.ensureAgg(a)
-		if i < 0 || i >= len(a.Elems) {
-			panic(goPanic{msg: fmt.Sprintf("runtime error: index out of range [%d] with length %d", i, len(a.Elems))})
+		if i < 0 || i >= in.alen(a) {
+			panic(goPanic{msg: fmt.Sprintf("runtime error: index out of range [%d] with length %d", i, in.alen(a))})
 		}
-		return a.Elems[i]
+		return in.acell(a, i)
 	case SliceVal:
 		if a.Ext != nil && a.Arr == nil {
 			in.materializeBlob(&a)
@@ -503,7 +506,7 @@ func (in *Interp) indexAddr(x, idx Value) Value {
 		if i < 0 || i >= a.Len {
 			panic(goPanic{msg: fmt.Sprintf("runtime error: index out of range [%d] with length %d", i, a.Len)})
 		}
-		return a.Arr.Elems[a.Off+i]
+		return in.scell(a, i)
 	}
 	in.fail("unsupported", fmt.Sprintf("indexAddr of %T", x))
 	return nil
@@ -550,6 +553,9 @@ func (in *Interp) mapUpdate(m *MapVal, k, v Value) {
 	if m == nil {
 		panic(goPanic{msg: "assignment to entry in nil map"})
 	}
+	if m.Frozen {
+		in.fail("unsupported", "write to a map of package-init state shared across paths (run with nocache)")
+	}
 	i := in.mapFind(m, k)
 	if i >= 0 {
 		m.E[i].V = copyValue(v)
@@ -559,6 +565,9 @@ func (in *Interp) mapUpdate(m *MapVal, k, v Value) {
 }
 
 func (in *Interp) mapDelete(m *MapVal, k Value) {
+	if m != nil && m.Frozen {
+		in.fail("unsupported", "delete from a map of package-init state shared across paths (run with nocache)")
+	}
 	i := in.mapFind(m, k)
 	if i >= 0 {
 		m.E = append(m.E[:i:i], m.E[i+1:]...)
@@ -678,8 +687,7 @@ func (in *Interp) sliceOp(fr *frame, x *ssa.Slice) Value {
 		if s == nil {
 			panic(goPanic{msg: "runtime error: invalid memory address or nil pointer dereference"})
 		}
-		in.ensureAgg(s)
-		n := len(s.Elems)
+		n := in.alen(s)
 		lo := geti(x.Low, 0)
 		hi := geti(x.High, n)
 		mx := geti(x.Max, n)
@@ -716,8 +724,7 @@ func (in *Interp) builtin(b *ssa.Builtin, args []Value, cc *ssa.CallCommon) Valu
 		case *ArrayVal:
 			return f.Int(int64(len(x.E)))
 		case *Cell:
-			in.ensureAgg(x)
-			return f.Int(int64(len(x.Elems)))
+			return f.Int(int64(in.alen(x)))
 		case *Opaque:
 			return f.Int(0)
 		}
@@ -728,8 +735,7 @@ func (in *Interp) builtin(b *ssa.Builtin, args []Value, cc *ssa.CallCommon) Valu
 		case *ArrayVal:
 			return f.Int(int64(len(x.E)))
 		case *Cell:
-			in.ensureAgg(x)
-			return f.Int(int64(len(x.Elems)))
+			return f.Int(int64(in.alen(x)))
 		}
 	case "append":
 		s := args[0].(SliceVal)
@@ -746,7 +752,7 @@ func (in *Interp) builtin(b *ssa.Builtin, args []Value, cc *ssa.CallCommon) Valu
 				in.materializeBlob(&y)
 			}
 			for i := 0; i < y.Len; i++ {
-				add = append(add, in.load(y.Arr.Elems[y.Off+i]))
+				add = append(add, in.sget(y, i))
 			}
 		case string:
 			for i := 0; i < len(y); i++ {
@@ -767,7 +773,7 @@ func (in *Interp) builtin(b *ssa.Builtin, args []Value, cc *ssa.CallCommon) Valu
 		}
 		if s.Arr != nil && s.Len+len(add) <= s.Cap {
 			for i, v := range add {
-				in.storeInto(s.Arr.Elems[s.Off+s.Len+i], et, copyValue(v))
+				in.storeInto(in.scell(s, s.Len+i), et, copyValue(v))
 			}
 			return SliceVal{Arr: s.Arr, Off: s.Off, Len: s.Len + len(add), Cap: s.Cap}
 		}
@@ -775,13 +781,21 @@ func (in *Interp) builtin(b *ssa.Builtin, args []Value, cc *ssa.CallCommon) Valu
 		if ncap < s.Len+len(add) {
 			ncap = s.Len + len(add)
 		}
-		ns := in.makeSlice(et, s.Len+len(add), ncap)
+		vals := make([]Value, ncap)
 		for i := 0; i < s.Len; i++ {
-			in.storeInto(ns.Arr.Elems[i], et, in.load(s.Arr.Elems[s.Off+i]))
+			vals[i] = in.sget(s, i)
 		}
 		for i, v := range add {
-			in.storeInto(ns.Arr.Elems[s.Len+i], et, copyValue(v))
+			vals[s.Len+i] = copyValue(v)
 		}
+		if ncap > s.Len+len(add) {
+			z := in.zero(et)
+			for i := s.Len + len(add); i < ncap; i++ {
+				vals[i] = z
+			}
+		}
+		ns := in.sliceFrom(et, vals)
+		ns.Len = s.Len + len(add)
 		return ns
 	case "copy":
 		d := args[0].(SliceVal)
@@ -792,7 +806,7 @@ func (in *Interp) builtin(b *ssa.Builtin, args []Value, cc *ssa.CallCommon) Valu
 				in.materializeBlob(&y)
 			}
 			for i := 0; i < y.Len; i++ {
-				src = append(src, in.load(y.Arr.Elems[y.Off+i]))
+				src = append(src, in.sget(y, i))
 			}
 		case string:
 			for i := 0; i < len(y); i++ {
@@ -808,7 +822,7 @@ func (in *Interp) builtin(b *ssa.Builtin, args []Value, cc *ssa.CallCommon) Valu
 			n = d.Len
 		}
 		for i := 0; i < n; i++ {
-			c := d.Arr.Elems[d.Off+i]
+			c := in.scell(d, i)
 			in.storeInto(c, c.T, copyValue(src[i]))
 		}
 		return f.Int(int64(n))
